@@ -344,7 +344,17 @@ var remoteIDs = func() []peer.ID {
 	return out
 }()
 
-func (c inConn) RemoteMultiaddr() ma.Multiaddr { return maddr(c.from) }
+// sender sameIPFrom is a second peer (its own peer ID) behind the IP address of sender 0
+const sameIPFrom = 2
+
+func ipOf(from int) int {
+	if from == sameIPFrom {
+		return 0
+	}
+	return from
+}
+
+func (c inConn) RemoteMultiaddr() ma.Multiaddr { return maddr(ipOf(c.from)) }
 
 func varint(x uint64) []byte {
 	var b []byte
@@ -401,6 +411,23 @@ func partB(r *vlib.Run) {
 		}
 	}
 	gen2(nil)
+	// two peers behind one IP address (NAT, one host): penalties accumulate per IP, and whichever peer earns a penalty that
+	// leaves the IP's total at or above the threshold is disconnected - also when the total was there already
+	var gen3 func(p []traffic)
+	gen3 = func(p []traffic) {
+		if len(p) > 1 {
+			seqs = append(seqs, append([]traffic{}, p...))
+		}
+		if len(p) == 4 {
+			return
+		}
+		for _, k := range []string{"ok", "malformed", "unknown"} {
+			for _, f := range []int{0, sameIPFrom} {
+				gen3(append(p, traffic{k, f}))
+			}
+		}
+	}
+	gen3(nil)
 	seen := map[string]bool{}
 	for _, seq := range seqs {
 		if r.Expired() {
@@ -427,12 +454,13 @@ func partB(r *vlib.Run) {
 		stop := mp.VerifStartRateLimiter()
 		vclock.WaitTickers(1)
 		// model
-		score := map[int]int{}
+		score := map[int]int{}     // per IP
+		mustClose := map[int]bool{} // per sender: one of its penalties left its IP's total at or above the threshold
 		inInterval := map[[2]int]int{} // (peer, procedure) -> requests in the current interval: limits are per procedure
 		desc := []string{}
 		bad := ""
 		for i, t := range seq {
-			desc = append(desc, fmt.Sprintf("%s<-%s", t.Kind, ipKey[t.From]))
+			desc = append(desc, fmt.Sprintf("%s<-%s/peer%d", t.Kind, ipKey[ipOf(t.From)], t.From))
 			var msg []byte
 			switch t.Kind {
 			case "ok", "ok2":
@@ -444,15 +472,20 @@ func partB(r *vlib.Run) {
 				k := [2]int{t.From, pi}
 				inInterval[k]++
 				if inInterval[k] > 2 { // above the limit of 2 per interval and procedure: penalised, counter reset
-					score[t.From] += 10
+					score[ipOf(t.From)] += 10
 					inInterval[k] = 0
+					if score[ipOf(t.From)] >= p2p.MaxPenaltyScore {
+						mustClose[t.From] = true
+					}
 				}
 			case "malformed":
 				msg = []byte{0xff, 0xff, 0xff}
-				score[t.From] += p2p.MaxPenaltyScore
+				score[ipOf(t.From)] += p2p.MaxPenaltyScore
+				mustClose[t.From] = true
 			case "unknown":
 				msg = request(fmt.Sprintf("id-%d", i), "nope", nil)
-				score[t.From] += p2p.MaxPenaltyScore
+				score[ipOf(t.From)] += p2p.MaxPenaltyScore
+				mustClose[t.From] = true
 			case "interval":
 				vclock.Tick()
 				inInterval = map[[2]int]int{}
@@ -475,12 +508,12 @@ func partB(r *vlib.Run) {
 			continue
 		}
 		got := mp.VerifScores()
-		for from := 0; from < 2; from++ {
-			g, ok := got[ipKey[from]]
+		for from := 0; from < 3; from++ {
+			g, ok := got[ipKey[ipOf(from)]]
 			if !ok {
 				g = 0
 			}
-			want := score[from]
+			want := score[ipOf(from)]
 			wasClosed := false
 			for _, c := range closed {
 				if c == remoteIDs[from] {
@@ -489,9 +522,9 @@ func partB(r *vlib.Run) {
 			}
 			key := ""
 			switch {
-			case want >= p2p.MaxPenaltyScore && g >= p2p.MaxPenaltyScore && !wasClosed:
+			case mustClose[from] && g >= p2p.MaxPenaltyScore && !wasClosed:
 				key = "banned-but-not-disconnected"
-			case want < p2p.MaxPenaltyScore && wasClosed:
+			case !mustClose[from] && wasClosed:
 				key = "disconnected-without-ban"
 			case want == 0 && g != 0:
 				key = "penalised-although-within-limits"
@@ -504,7 +537,7 @@ func partB(r *vlib.Run) {
 			}
 			if key != "" && !seen[key] {
 				seen[key] = true
-				r.Violation(key, fmt.Sprintf("after traffic %v the score of %s is %d, the model says %d", desc, ipKey[from], g, want), caseT{desc, "traffic"})
+				r.Violation(key, fmt.Sprintf("after traffic %v the score of %s is %d, the model says %d; peer%d disconnected: %v, the model says %v", desc, ipKey[ipOf(from)], g, want, from, wasClosed, mustClose[from]), caseT{desc, "traffic"})
 			}
 		}
 	}
